@@ -125,6 +125,11 @@ class Machine:
         if not t and not f: raise PathEnd("infeasible")
         return self.fork(cond)
     def fork(self, cond):
+        md = getattr(self, 'max_dec', None)
+        if md is not None and self.nfork >= md:
+            # exploration budget of this family reached on this path: follow one side only (an under-approximation, reported as truncated)
+            self.truncated = getattr(self, 'truncated', 0) + 1
+            self.assume(cond); return True
         self.nfork += 1
         sys.stdout.flush()
         par = PAR_SEM is not None and PAR_SEM.acquire(block=False)
@@ -161,6 +166,10 @@ class Machine:
             for k in range(1, len(segs)):
                 cand = '::'.join(segs[k:])
                 if cand in self.fn_index: return self.fn_index[cand]
+            # a path printed shorter than it is indexed (e.g. `EOF_CHAR` for `scanner::EOF_CHAR`): unique suffix match
+            if re.fullmatch(r'[A-Za-z_][\w:]*', nm2):
+                hits = [v for k2, v in self.fn_index.items() if k2.endswith('::' + nm2)]
+                if len(set(hits)) == 1: return hits[0]
         return None
 
     def closure_ncaps(self, cty):
@@ -333,6 +342,12 @@ class Machine:
             t = txt[len('ZeroSized: '):]
             if t.startswith('{closure@'): return Agg(t, 0, [])
             return Native('ZST', name=t)
+        # one-line constants (`const NAME: T = const V;`), referenced by a possibly longer path
+        if re.fullmatch(r'[A-Za-z_][\w:]*', txt):
+            last = txt.split('::')[-1]
+            for k2, v2 in mp.SIMPLE_CONSTS.items():
+                if k2 == txt or k2.split('::')[-1] == last and (txt.endswith('::' + k2) or k2.endswith('::' + txt) or k2 == last):
+                    return self.const(v2, fr)
         # named const / promoted / fn item / ZST
         nm = norm_name(txt)
         key = self.lookup(txt)
@@ -527,8 +542,10 @@ def strip_generics(s):
     # remove ::<...> turbofish groups and lifetimes
     out = []; i = 0; n = len(s)
     while i < n:
-        if s.startswith('::<', i) and not s.startswith('::<impl', i):
+        if s.startswith('::<', i):
             j = mp.scan_balanced(s, i + 3, ['>'])
+            # `::<impl T>::method` is a path segment (inherent impl), `f::<impl Trait>` at the end of a path is a generic argument
+            if s.startswith('::<impl', i) and s.startswith('::', j + 1): out.append(s[i]); i += 1; continue
             i = j + 1; continue
         out.append(s[i]); i += 1
     return ''.join(out)
